@@ -16,15 +16,15 @@ GLOBE = [(179.9, 0.0), (-179.9, 0.0), (180.0, 90.0), (0.0, 60.0), (1.0, 60.0), (
          (alpha.NAN, 0.0), (alpha.NAN, alpha.NAN)]
 RED = [(lo, la) for lo in (-11.0, -10.0, 0.0, alpha.NAN) for la in (-5.0, 0.0, 6.0, alpha.NAN)]
 SMALL = [-10, -5, 10, 5]
-BOXES = (("default", None), ("list", SMALL), ("tuple", SMALL), ("list", [0, 0, 0, 0]), ("list", [-10.0, -5.0, 10.0, 5.0]))
+BOXES = (("default", None), ("list", SMALL), ("tuple", SMALL), ("list", [0, 0, 0, 0]), ("list", [-10.0, -5.0, 10.0, 5.0]), ("list", [-11, 5, -10, 6]))
 MALFORMED = (("list", [-10, -5, 10]), ("list", [-10, -5, 10, 5, 0]), ("none", None), ("raw", "abcd"), ("raw", 5), ("list", []))
 NMAX = {"quick": 2, "thorough": 3}
 BUDGET = {"quick": 600, "thorough": 3000}
 
 META = dict(
     rule="every track of length 0..N over 36 positions around the box (-10,-5,10,5) (lon,lat each below/on/inside/on/"
-         "above the edges or missing) x bbox in {default, small box as list/tuple/floats, degenerate box} x range_max "
-         "in {None} + {0.9d, d, 1.1d, floor(d), (floor(d)+d)/2 : d a hop distance of the track}; the same over a 10-position globe menu "
+         "above the edges or missing) x bbox in {default, small box as list/tuple/floats, degenerate box, a box that excludes the origin} x range_max "
+         "in {None} + {0.9d, d, 1.1d, floor(d), (floor(d)+d)/2 : d a hop distance of the track or the distance across a one-point gap}; the same over a 10-position globe menu "
          "(antimeridian, poles, out-of-globe, missing) with the default box; product series of all positions in 3 "
          "orders; malformed boxes (3/5/0 items, None, str, number) and unequal lon/lat lengths must be rejected. Each "
          "state = one real call judged per point by the scalar reference (geographiclib per pair with explicit "
@@ -39,9 +39,10 @@ def range_cands(track):
     lon = alpha.ref([p[0] for p in track])
     lat = alpha.ref([p[1] for p in track])
     c = []
-    for i in range(1, len(track)):
-        if R.full(lon, lat, i) and R.full(lon, lat, i - 1):
-            d = R.geodist(lat[i - 1], lon[i - 1], lat[i], lon[i])
+    pairs = [(i - 1, i) for i in range(1, len(track))] + [(i - 2, i) for i in range(2, len(track))]
+    for j, i in pairs:  # hops, and the distance across a gap (must NOT be used by the test)
+        if R.full(lon, lat, i) and R.full(lon, lat, j):
+            d = R.geodist(lat[j], lon[j], lat[i], lon[i])
             import math as _m
             if not _m.isfinite(d):
                 continue
